@@ -279,11 +279,18 @@ Section Ledger.
             let receiver' := if a_deploy receiver' then upd_new receiver' (set_code (a_new receiver')) else receiver' in
             if forallb (fun tr => 0 <=? snd tr) trs
                && (transfers_out (a_id receiver) trs <=? a_bal receiver)
-               && (base + cfee <=? a_bal (if feedeleg then receiver' else sender'))
-            then (COk, write_storage s' (a_id receiver)
-                         (* Create records the deployer under the creator-metadata key (key 0) *)
-                         (if a_deploy receiver then (0%N, Z.of_N (a_id sender)) :: ws else ws),
-                  sender', receiver', base + cfee)
+            then
+              if base + cfee <=? a_bal (if feedeleg then receiver' else sender')
+              then (COk, write_storage s' (a_id receiver)
+                           (* Create records the deployer under the creator-metadata key (key 0) *)
+                           (if a_deploy receiver then (0%N, Z.of_N (a_id sender)) :: ws else ws),
+                    sender', receiver', base + cfee)
+              else match trs with
+                   | [] => (* the run completed without touching accounts: Execute's own "sufficient balance
+                              for fee" check fails: runtime error charging base + execution fee, storage not staged *)
+                           (CRuntime, s, sender, receiver, base + cfee)
+                   | _ => (CRuntime, s, sender, receiver, base)   (* the scripted VM refuses: out of gas *)
+                   end
             else (CRuntime, s, sender, receiver, base)
         end
       end
